@@ -115,7 +115,18 @@ class Lowerer:
                 for s in present:
                     cmd += ['--func=' + s]
                 run(cmd)
-                # llvm-extract --delete makes remaining internal symbols external; harmless before internalize
+                # llvm-extract --delete makes remaining internal symbols external ('hidden'); with one cut TU that is
+                # harmless before internalize, with two the private '.str' constants of both clash in llvm-link:
+                # give the symbols that were private/internal before the extraction their local linkage back
+                local = set(re.findall(r'^(@(?:"[^"\n]+"|[-\w.$]+)) = (?:private|internal) ', text, flags=re.M))
+                local |= set(re.findall(r'^define (?:internal|private) [^\n]*?(@(?:"[^"\n]+"|[-\w.$]+))\(', text, flags=re.M))
+                t2 = open(outp2).read()
+                t2 = re.sub(r'^(@(?:"[^"\n]+"|[-\w.$]+)) = hidden ',
+                            lambda mo: (mo.group(1) + ' = internal ') if mo.group(1) in local else mo.group(0), t2, flags=re.M)
+                t2 = re.sub(r'^define hidden ([^\n]*?)(@(?:"[^"\n]+"|[-\w.$]+))\(',
+                            lambda mo: ('define internal ' + mo.group(1) + mo.group(2) + '(') if mo.group(2) in local else mo.group(0),
+                            t2, flags=re.M)
+                open(outp2, 'w').write(t2)
                 outp = outp2
             processed.append(outp)
         linked = os.path.join(d, 'linked.ll')
